@@ -521,7 +521,7 @@ def run(ctx):
     rule_soft_only(ctx)
     # the filter option and the principal address are what the caller configured, in every dump (same rule instance as C19/config-preserved)
     from rules import c19 as _c19
-    _c19.rule_config_preserved(ctx, R="C20/options-kept", only=("skip_stacks_if_mapping_unreferenced", "principal_mapping_address"))
+    _c19.rule_config_preserved(ctx, R="C20/options-kept", only=("skip_stacks_if_mapping_unreferenced", "principal_mapping_address", "crash_context"))
     # "at or above its stack pointer": the value both scanners start from is the thread's own rsp — the ptrace register for ordinary
     # threads, gregs[REG_RSP] of the supplied context for the crashing one — not an adjusted one (same rule instances as C04/regs-source, C05/greg-map)
     from rules import c04 as _c04, c05 as _c05
